@@ -14,7 +14,7 @@ import z3
 from vf.engine import runner
 from vf.engine.rulesym import SymArch, explore_fn, solver, solver_delta, validate_samples
 from vf.oracles.rules import PyLogic, Z3Logic, ambiguous_pairs, verdict
-from vf.universes import SHAPES, RuleSpec, build_rule, concrete, evaluate, related, unrelated_filter_sets
+from vf.universes import SHAPES, RuleSpec, build_rule, concrete, evaluate, random_forest, random_unrelated_spec, related, unrelated_filter_sets
 
 PROP = "C01"
 CAPS = {"quick": 1 << 14, "thorough": 1 << 18}
@@ -67,9 +67,85 @@ def instances(tier: str) -> list[dict]:
             oth = [i for i in big if i["spec"]["direction"] != "import"]
             out.extend(rnd.sample(imp, min(len(imp), 260)))
             out.extend(rnd.sample(oth, min(len(oth), 12)))
+    out.extend(big_instances(tier))
     for i, inst in enumerate(out):
         inst["cap"] = CAPS[tier]
     return out
+
+
+def big_instances(tier: str) -> list[dict]:
+    """Seeded larger universes: random forests of 8-12 modules (mixed neutral / prefix-sibling component names), a
+    random concrete import relation, and a window of 10-13 ordered pairs left symbolic (two thirds of them touching
+    the rule's subjects / objects); 1-3 unrelated subjects and objects, any shape, either filter kind."""
+    rnd = random.Random(runner.seed() * 1000003 + 17)
+    out = []
+    n_inst = 120 if tier == "quick" else 2400
+    while len(out) < n_inst:
+        n = rnd.choice((8, 9, 10, 12))
+        nodes = random_forest(rnd, n, max_depth=rnd.choice((3, 4)), roots=rnd.choice((1, 2, 3)))
+        got = random_unrelated_spec(rnd, nodes)
+        if got is None:
+            continue
+        sk, S, ok, O = got
+        verb, direction, exc = rnd.choice(SHAPES)
+        if rnd.random() < 0.12:
+            spec = RuleSpec("should_not", direction, False, sk, S[:1], "named", (), True)
+        else:
+            spec = RuleSpec(verb, direction, exc, sk, S, ok, O)
+        k = rnd.choice((10, 11, 12)) if tier == "quick" else rnd.choice((11, 12, 13))
+        win, bg = sensitive_window(rnd, nodes, spec, k)
+        out.append({"tree": f"R{n}#{len(out)}", "naming": "mixed", "nodes": nodes, "window": [list(p) for p in win], "background": [list(p) for p in bg], "spec": spec.as_json()})
+    return out
+
+
+def sensitive_window(rnd, nodes, spec: RuleSpec, k: int):
+    """Instance selection only (the reference semantics guide WHERE to look, not what is accepted): draw random
+    concrete relations until the documented verdict is sensitive to at least one single import, then leave symbolic
+    up to k/2 of those sensitive pairs, k/4 further pairs between subject / object / 'something else' modules, and
+    random other pairs; everything else keeps its drawn value.  The query then covers all 2^k completions."""
+    from vf.oracles.rules import edge_pairs, other_pairs, rule_sets
+
+    pairs = [(x, y) for x in nodes for y in nodes if x != y and not (y.startswith(x + ".") and "." not in y[len(x) + 1 :])]
+    S, O = rule_sets(spec, nodes)
+    osets = [o for _, o in O]
+    relevant = set()
+    for _, sset in S:
+        for oset in osets:
+            relevant |= set(edge_pairs(spec, sset, oset))
+        relevant |= set(other_pairs(spec, sset, osets, nodes))
+    relevant &= set(pairs)
+    amb = ambiguous_pairs(spec, nodes)
+    best = None
+    for _ in range(40):
+        d_rel, d_oth = rnd.choice((0.03, 0.1, 0.3, 0.6, 0.9)), rnd.choice((0.05, 0.15, 0.3))
+        A = {p for p in pairs if p not in amb and rnd.random() < (d_rel if p in relevant else d_oth)}
+        base = bool(verdict(spec, nodes, PyLogic(A)))
+        sens = [p for p in sorted(relevant - amb) if bool(verdict(spec, nodes, PyLogic(A ^ {p}))) != base]
+        if best is None or len(sens) > len(best[1]):
+            best = (A, sens)
+        if len(sens) >= 2:
+            break
+    A, sens = best
+    rnd.shuffle(sens)
+    win = sens[: k // 2]
+    rel = [p for p in sorted(relevant - amb) if p not in set(win)]
+    rnd.shuffle(rel)
+    win += rel[: max(k // 4, 0)]
+    rest = [p for p in pairs if p not in set(win) and p not in amb]
+    rnd.shuffle(rest)
+    win += rest[: k - len(win)]
+    ws = set(win)
+    return sorted(win), sorted(A - ws)
+
+
+def nodes_of(inst: dict) -> list[str]:
+    return inst["nodes"] if "nodes" in inst else concrete(inst["tree"], inst["naming"])
+
+
+def arch_of(inst: dict, nodes) -> SymArch:
+    if "window" in inst:
+        return SymArch(nodes, window=[tuple(p) for p in inst["window"]], background=[tuple(p) for p in inst["background"]])
+    return SymArch(nodes)
 
 
 def concrete_outcome(nodes, spec: RuleSpec, edges):
@@ -80,9 +156,9 @@ def concrete_outcome(nodes, spec: RuleSpec, edges):
 
 def work(inst: dict) -> dict:
     spec = RuleSpec.from_json(inst["spec"])
-    nodes = concrete(inst["tree"], inst["naming"])
+    nodes = nodes_of(inst)
     label = f"{inst['tree']}/{inst['naming']}: {spec.label()}"
-    arch = SymArch(nodes)
+    arch = arch_of(inst, nodes)
     before = solver().stats()
 
     def fn():
@@ -155,9 +231,10 @@ def run(tier: str, only: str | None = None) -> int:
     if only:
         items = [i for i in items if only in f"{i['tree']}/{i['naming']}: {RuleSpec.from_json(i['spec']).label()}"]
     rep.bounds = {
-        "trees": sorted({i["tree"] for i in items}),
+        "trees": sorted({i["tree"].split("#")[0] for i in items}),
         "namings": sorted({i["naming"] for i in items}),
-        "max_modules": max(len(concrete(i["tree"], i["naming"])) for i in items) if items else 0,
+        "max_modules": max(len(nodes_of(i)) for i in items) if items else 0,
+        "seeded_larger_universes": f"{sum(1 for i in items if 'window' in i)} random forests of 8-12 modules: concrete random background relation, 10-13 symbolic pairs each (VERIF_SEED)",
         "path_cap_per_instance": CAPS[tier],
         "shapes": "12 verb x direction x except shapes + import_anything / be_imported_by_anything (single subject, and batches of 2-3 unrelated named subjects with imports between the subjects as don't-care)",
         "filters": "named / sub modules of on either side, subjects and objects pairwise unrelated",
